@@ -216,6 +216,9 @@ func (g *G) assignStmt(d int) (hs.Stmt, bool) {
 	if v.global {
 		g.feat("assign-global")
 	}
+	if g.inExpr > 0 {
+		g.feat("assign-in-expr")
+	}
 	op := "="
 	switch t.K {
 	case hs.KInt:
